@@ -261,6 +261,16 @@ def r09_3(ctx):
                 refcount = any("references_set" in U(g) or "use_count" in U(g) or "users" in U(g) for g, _ in p.guards)
                 ctx.check(f"{q}: removal of {operand}", is_lit or refcount, "operand is a literal (inlined, undeclared) or the removal is guarded by a use count",
                           "arbitrary operand removed by name although an earlier statement may still use it (registers, variables and immediates are de-duplicated by name)", fn_where(idx, fi))
+    # the holder's own bookkeeping removes exactly the pending sequence of a hybrid and its two members (reference counted)
+    for fi in idx.funcs.values():
+        if fi.cls != "ILOpsHolder":
+            continue
+        for n in ast.walk(fi.node):
+            if isinstance(n, ast.Call) and call_tail(n) == "rm_op_by_name" and n.args:
+                arg = U(n.args[0])
+                reviewed = fi.name == "update_hybrid_ref" and arg in ("h_seq.get_name()", "h_seq.effect_ops[0].get_name()", "h_seq.effect_ops[1].get_name()")
+                ctx.check(f"ILOpsHolder.{fi.name}: removal of {arg.replace('.get_name()', '')}", reviewed, "only the pending sequence of a hybrid without references and its two members",
+                          "further operands removed by name (they may be used by live code)", fn_where(idx, fi), nontrivial=not reviewed)
     # hybrids are reference counted
     fu = idx.func("ILOpsHolder.update_hybrid_ref")
     txt = U(fu.node)
